@@ -274,6 +274,12 @@ class Model:
             self.tree[ns].setdefault(parent + (name,), {})
             if ns == 'iso':
                 self.rrnames.setdefault(parent + (name,), {})
+                if self.rr and self.level < 4 and len(parent) + 1 == 8 and () in self.tree['iso'] and 'RR_MOVED' not in self.tree['iso'][()]:
+                    # the library has made the relocation directory: from now on a directory like any other to add things to
+                    self.tree['iso'][()]['RR_MOVED'] = 'dir'
+                    self.tree['iso'][('RR_MOVED',)] = {}
+                    self.rrnames.setdefault((), {})['rr_moved'] = 'RR_MOVED'
+                    self.rrnames[('RR_MOVED',)] = {}
         if ns == 'iso' and self.rr and op.get('rr'):
             self.rrnames.setdefault(parent, {}).setdefault(op['rr'], name)
 
@@ -1060,7 +1066,17 @@ def t_reloc_twins(draw):
         ops.append({'op': 'dir', 'ns': 'iso', 'path': path + '/' + leaf, 'rr': 'leaf' if same_rr else 'leaf' + t.lower()})
         if draw(st.booleans()):
             ops.append({'op': 'file', 'ns': 'iso', 'path': path + '/' + leaf + '/F.;1', 'rr': 'f'})
-    if draw(st.integers(0, 3)) == 0:
+    extra = draw(st.integers(0, 5))
+    if extra == 1:
+        # the user puts entries of their own into the relocation directory, one of them twice
+        ops.append({'op': 'file', 'ns': 'iso', 'path': '/SRC.;1', 'rr': 'src'})
+        kind2 = draw(st.sampled_from(['link', 'link', 'file']))
+        for rrn in ('bar', 'bar' if draw(st.booleans()) else 'bar2'):
+            o = {'op': kind2, 'ns': 'iso', 'path': '/RR_MOVED/BAR.;1', 'rr': rrn}
+            if kind2 == 'link':
+                o['old'] = '/SRC.;1'
+            ops.append(o)
+    if extra == 0:
         k = draw(st.integers(0, n - 1))
         ops.append({'op': 'rm_dir', 'ns': 'iso', 'path': '/%s/D2/D3/D4/D5/D6/D7/%s' % (tops[k], leaf)})
         ops.append({'op': 'dir', 'ns': 'iso', 'path': '/%s/D2/D3/D4/D5/D6/D7/%s' % (tops[k], leaf), 'rr': 'again'})
